@@ -19,7 +19,28 @@ func TestC10(t *testing.T) {
 			p.Focus = "agg"
 			p.MaxDepth = 2
 		}
-		c := drawGeneral(t, p, gen.WindowOpts{}, gen.DataOpts{Specials: true, MaxSeries: 12, MinSeries: 3, Histogram: true, Metrics: []string{"m", "m", "n"}, Twins: true})
+		few := rapid.IntRange(0, 2).Draw(t, "fewvalues") == 0
+		c := drawGeneral(t, p, gen.WindowOpts{}, gen.DataOpts{Specials: true, MaxSeries: 12, MinSeries: 3, Histogram: true, Metrics: []string{"m", "m", "n"}, Twins: true, FewValues: few})
+		if p.Focus == "agg" && rapid.IntRange(0, 3).Draw(t, "reagg") == 0 {
+			// the whole query aggregated once more, preferably by the operator it already ends in
+			// (topk/bottomk only over a query that already ends in one: its values are then input samples,
+			// not sums whose rounding could decide the selection)
+			op := rapid.SampledFrom([]string{"sum", "min", "max", "count", "group"}).Draw(t, "reaggop")
+			for _, o := range gen.AggOps {
+				if len(c.Query) > len(o) && c.Query[:len(o)] == o && rapid.IntRange(0, 2).Draw(t, "sameop") > 0 {
+					switch o {
+					case "sum", "min", "max", "count", "group", "topk", "bottomk":
+						op = o
+					}
+				}
+			}
+			grp := rapid.SampledFrom([]string{"", " by (a)", " by (b)", " without (a)", " by (a, b)"}).Draw(t, "reagggrp")
+			if op == "topk" || op == "bottomk" {
+				c.Query = op + grp + " (" + strconv.Itoa(rapid.IntRange(1, 3).Draw(t, "reaggk")) + ", " + c.Query + ")"
+			} else {
+				c.Query = op + grp + " (" + c.Query + ")"
+			}
+		}
 		c.NParts = rapid.IntRange(1, 4).Draw(t, "nparts")
 		c.Parts = make([]int, len(c.Series))
 		for i := range c.Parts {
@@ -37,6 +58,10 @@ var c10Queries = []string{
 	"m + n", "sum(m + n)", "count(m > 0)", "sum(m @ end())", "sum(m offset 1m)", "clamp_min(sum(m), 2)",
 	"histogram_quantile(0.5, sum by (le) (h_bucket))", "scalar(sum(m))", "vector(scalar(count(m)))", "sum(count_over_time(m[3m]))",
 	"max by (a) (sum by (a, b) (m))", "sum(topk(2, m))", "count(count by (a) (m))",
+	// an aggregation re-aggregated by the same operator
+	"sum(sum by (a) (m))", "max(max by (a, b) (m))", "min by (b) (min without (a) (m))", "group(group by (a) (m))",
+	"count by (b) (count by (a, b) (m))", "topk(2, topk(1, m))", "topk(1, topk by (a) (1, m))", "bottomk(2, bottomk by (b) (1, m))",
+	"topk by (a) (1, topk(3, m))", "count(count(m))", "sum(count by (a) (m))", "count(sum by (a) (m))",
 }
 
 // TestC10Small enumerates every assignment of <=5 series to <=3 remote engines for a
@@ -60,7 +85,7 @@ func TestC10Small(t *testing.T) {
 				wo := gen.WindowOpts{}
 				w := gen.DrawWindow(t, wo)
 				cfg := gen.DrawConfig(t)
-				ds := gen.DrawDataset(t, w, gen.DataOpts{Specials: true, MaxSeries: 5, MinSeries: 4, Histogram: d%3 == 2, Lookback: cfg.EffLookback(), Metrics: []string{"m", "m", "m", "n"}})
+				ds := gen.DrawDataset(t, w, gen.DataOpts{Specials: true, MaxSeries: 5, MinSeries: 4, Histogram: d%3 == 2, Lookback: cfg.EffLookback(), Metrics: []string{"m", "m", "m", "n"}, FewValues: d%2 == 0})
 				c := &core.Case{Series: ds.Series, Start: w.Start, End: w.End, Step: w.Step}
 				cfg.Apply(c)
 				return c
